@@ -5,9 +5,13 @@ package nebula
 import (
 	"fmt"
 	"net/netip"
+	"os"
 	"sort"
+	"strconv"
 	"strings"
 	"sync"
+	"sync/atomic"
+	"syscall"
 	"testing"
 
 	"github.com/slackhq/nebula/cert"
@@ -30,6 +34,11 @@ import (
 //
 // Reference: a flat rule list per rule set and, per tuple, the SET of abstract conntrack states the statement permits:
 // N (not tracked), O (tracked, created by an outgoing packet), I (tracked, created by an incoming packet).
+//   the rules' meaning : a rule's local_cidr is "any", an explicit prefix, or omitted. Omitted means (examples/config.yml):
+//                        any local address when firewall.default_local_cidr_any is set or the node's certificate has no
+//                        unsafe networks, otherwise only the node's own overlay networks. What a rule set allows is
+//                        therefore a function of (rule text, default_local_cidr_any, certificate); a reload that changes
+//                        any of the three is a reload to the rules R' it then means.
 //   reload to rules R  : every tracked possibility whose original direction R does not allow may already be forgotten
 //                        (N is added; the entry itself may survive until the next packet: lazy and eager forgetting are both
 //                        accepted); a rulesVersion wrap may forget anything (N is added to every tuple — granted, DESIGN ◊)
@@ -43,6 +52,13 @@ type c19Rule struct {
 	Incoming bool
 	Port     uint16
 	Group    string // "" = host any
+	Local    string // local_cidr: "any", "" (omitted: depends on default_local_cidr_any and the certificate), or a prefix
+}
+
+// c19Env is what, besides the rule text, decides what the rules allow.
+type c19Env struct {
+	DefaultLocalAny bool // firewall.default_local_cidr_any
+	Unsafe          bool // the node's certificate carries the unsafe network 172.16.0.0/16
 }
 
 type c19RuleSet struct {
@@ -51,15 +67,47 @@ type c19RuleSet struct {
 }
 
 var c19Sets = []c19RuleSet{
-	{"R0(out80)", []c19Rule{{false, 80, ""}}},
-	{"R1(in80)", []c19Rule{{true, 80, ""}}},
-	{"R2(out80+in80)", []c19Rule{{false, 80, ""}, {true, 80, ""}}},
+	{"R0(out80)", []c19Rule{{false, 80, "", "any"}}},
+	{"R1(in80)", []c19Rule{{true, 80, "", "any"}}},
+	{"R2(out80+in80)", []c19Rule{{false, 80, "", "any"}, {true, 80, "", "any"}}},
 	{"R3(none)", nil},
-	{"R4(out80 group g1)", []c19Rule{{false, 80, "g1"}}},
+	{"R4(out80 group g1)", []c19Rule{{false, 80, "g1", "any"}}},
+	{"R5(out80+in80, local_cidr omitted)", []c19Rule{{false, 80, "", ""}, {true, 80, "", ""}}},
+	{"R6(out80 local_cidr omitted + in80 local_cidr 172.16.0.0/16)", []c19Rule{{false, 80, "", ""}, {true, 80, "", "172.16.0.0/16"}}},
 }
 
-// c19Allows: flat evaluation. All rules are proto tcp, local_cidr any; every packet of the alphabet is unfragmented TCP.
-func c19Allows(rs c19RuleSet, p firewall.Packet, incoming bool, peerGroups []string) bool {
+var c19MyNetwork = netip.MustParsePrefix("10.0.0.0/24") // the node's overlay network (c19Spec)
+
+// c19LocalOK: does the rule's local_cidr admit the packet's local address under env.
+func c19LocalOK(r c19Rule, env c19Env, local netip.Addr) bool {
+	switch r.Local {
+	case "any":
+		return true
+	case "":
+		return env.DefaultLocalAny || !env.Unsafe || c19MyNetwork.Contains(local)
+	}
+	return netip.MustParsePrefix(r.Local).Contains(local)
+}
+
+// c19Meaning renders what a rule set means under env (omitted local_cidr resolved); two configurations with the same
+// rendering have the same rules as far as the statement is concerned.
+func c19Meaning(rs c19RuleSet, env c19Env) string {
+	var out []string
+	for _, r := range rs.Rules {
+		lc := r.Local
+		if lc == "" {
+			lc = "own networks"
+			if env.DefaultLocalAny || !env.Unsafe {
+				lc = "any"
+			}
+		}
+		out = append(out, fmt.Sprintf("%v/%d/%s/%s", r.Incoming, r.Port, r.Group, lc))
+	}
+	return strings.Join(out, ";")
+}
+
+// c19Allows: flat evaluation. All rules are proto tcp; every packet of the alphabet is unfragmented TCP.
+func c19Allows(rs c19RuleSet, env c19Env, p firewall.Packet, incoming bool, peerGroups []string) bool {
 	for _, r := range rs.Rules {
 		if r.Incoming != incoming {
 			continue
@@ -69,6 +117,9 @@ func c19Allows(rs c19RuleSet, p firewall.Packet, incoming bool, peerGroups []str
 			port = p.LocalPort
 		}
 		if r.Port != port {
+			continue
+		}
+		if !c19LocalOK(r, env, p.LocalAddr) {
 			continue
 		}
 		if r.Group == "" {
@@ -83,14 +134,17 @@ func c19Allows(rs c19RuleSet, p firewall.Packet, incoming bool, peerGroups []str
 	return false
 }
 
-func c19FirewallSection(rs c19RuleSet, touch bool) m {
+func c19FirewallSection(rs c19RuleSet, touch, defaultLocalAny bool) m {
 	mk := func(incoming bool) []m {
 		out := []m{}
 		for _, r := range rs.Rules {
 			if r.Incoming != incoming {
 				continue
 			}
-			x := m{"port": int(r.Port), "proto": "tcp", "local_cidr": "any"}
+			x := m{"port": int(r.Port), "proto": "tcp"}
+			if r.Local != "" {
+				x["local_cidr"] = r.Local
+			}
 			if r.Group == "" {
 				x["host"] = "any"
 			} else {
@@ -104,7 +158,11 @@ func c19FirewallSection(rs c19RuleSet, touch bool) m {
 	if touch { // a firewall setting that is not a rule: the reload builds a new firewall with identical rules
 		dt = "11m"
 	}
-	return m{"outbound": mk(false), "inbound": mk(true), "conntrack": m{"default_timeout": dt}}
+	sec := m{"outbound": mk(false), "inbound": mk(true), "conntrack": m{"default_timeout": dt}}
+	if defaultLocalAny { // the key is absent (default false) otherwise
+		sec["default_local_cidr_any"] = true
+	}
+	return sec
 }
 
 type c19Pkt struct {
@@ -136,13 +194,15 @@ func c19SetString(s int) string {
 }
 
 type c19Ev struct {
-	Kind byte // P packet, L reload to rule set, T touch (non-rule firewall setting), U unsafe-network change, J set rulesVersion, K cache tick
+	Kind byte // P packet, L reload to rule set, T touch (non-rule firewall setting), D default_local_cidr_any toggle, U unsafe-network change, J set rulesVersion, K cache tick
 	Arg  int
 }
 
 type c19Flow struct {
 	set         int
-	rulesChange bool // a reload changed the rule set since the flow was last known to be tracked
+	rulesChange bool // a reload changed the rules (text or meaning) since the flow was last known to be tracked
+	textChange  bool // ... and at least one of those reloads changed the rule text (rulesChange && !textChange: only default_local_cidr_any / the certificate changed what the rules mean)
+	settingNoEffect bool // a default_local_cidr_any / certificate reload that left the rules' meaning alone happened since the flow last passed
 	wrapped     bool // N is in the set only/also because of a rulesVersion wrap
 	reloads     int  // firewall-building reloads since the flow last passed
 }
@@ -157,6 +217,8 @@ type c19Stat struct {
 	noopReloads, effectiveReloads, unsafeReloads      int64
 	unroutable, staleCacheHits                        int64
 	groupDenied                                       int64
+	dlaReloads, meaningOnlyReloads                    int64 // default_local_cidr_any toggles; reloads with identical rule text that change what the rules allow
+	mustDropMeaningOnly, mustPassSettingNoEffect      int64
 	versions                                          map[uint16]bool
 }
 
@@ -172,6 +234,7 @@ type c19World struct {
 	rs      int
 	touch   bool
 	unsafe  bool
+	dla     bool // firewall.default_local_cidr_any
 	jumped  bool
 	useCach bool
 	caches  [2]firewall.ConntrackCache
@@ -206,11 +269,15 @@ func c19Alphabet(full bool) []c19Pkt {
 	if full {
 		tG := tcp(c19Me, 1000, c19P2, 80) // same as A but to the peer without group g1
 		out = append(out, c19Pkt{"G.out", "G", tG, false, 1}, c19Pkt{"G.in", "G", tG, true, 1})
+		tV := tcp(c19MeU, 80, c19P1, 2000) // same as D but addressed to the unsafe-network address
+		out = append(out, c19Pkt{"V.in", "V", tV, true, 0}, c19Pkt{"V.out", "V", tV, false, 0})
 	}
 	return out
 }
 
-const c19InitialSet = 2 // R2: both directions of port 80
+// R5: both directions of port 80, local_cidr omitted. For every flow to the node's overlay address that is the same as R2; the
+// flows to the unsafe-network address start out refused and depend on default_local_cidr_any.
+const c19InitialSet = 5
 
 func c19Spec() vnodeSpec {
 	return vnodeSpec{Name: "me", Networks: "10.0.0.1/24", Unsafe: "172.16.0.0/16", Udp: "192.0.2.1:4242"}
@@ -230,10 +297,10 @@ func c19Mint() {
 // configYAML renders the node's complete configuration for the current (rule set, touch, unsafe) state: the E4 default
 // configuration with the firewall section REPLACED (vnode.reload can only append to the default allow-all rules) and the
 // node certificate with / without its unsafe network.
-var c19YAMLCache sync.Map // (rule set, touch, unsafe) -> rendered configuration (pure function; rendering dominates otherwise)
+var c19YAMLCache sync.Map // (rule set, touch, unsafe, default_local_cidr_any) -> rendered configuration (pure function; rendering dominates otherwise)
 
 func (w *c19World) configYAML() string {
-	ck := [3]int{w.rs, map[bool]int{true: 1}[w.touch], map[bool]int{true: 1}[w.unsafe]}
+	ck := [4]int{w.rs, map[bool]int{true: 1}[w.touch], map[bool]int{true: 1}[w.unsafe], map[bool]int{true: 1}[w.dla]}
 	if v, ok := c19YAMLCache.Load(ck); ok {
 		return v.(string)
 	}
@@ -245,7 +312,7 @@ func (w *c19World) configYAML() string {
 	pk := vGetPKI()
 	leaf := pk.leafFor(sp.Name, sp.Networks, un, nil, cert.Version2)
 	cfg := vDefaultConfig(leaf, pk.caPEM, c19UDP)
-	cfg["firewall"] = c19FirewallSection(c19Sets[w.rs], w.touch)
+	cfg["firewall"] = c19FirewallSection(c19Sets[w.rs], w.touch, w.dla)
 	b, err := yaml.Marshal(cfg)
 	if err != nil {
 		w.c.Broken("yaml: %v", err)
@@ -344,6 +411,10 @@ func (w *c19World) close() {
 	a.unroutable += b.unroutable
 	a.staleCacheHits += b.staleCacheHits
 	a.groupDenied += b.groupDenied
+	a.dlaReloads += b.dlaReloads
+	a.meaningOnlyReloads += b.meaningOnlyReloads
+	a.mustDropMeaningOnly += b.mustDropMeaningOnly
+	a.mustPassSettingNoEffect += b.mustPassSettingNoEffect
 	for v := range b.versions {
 		a.versions[v] = true
 	}
@@ -351,7 +422,8 @@ func (w *c19World) close() {
 
 func (w *c19World) violation(sig string, extra map[string]any) {
 	d := map[string]any{"history": append([]string{}, w.trace...), "rules_now": c19Sets[w.rs].Name, "rulesVersion_now": w.f.firewall.rulesVersion,
-		"initial": c19Sets[c19InitialSet].Name + ", rulesVersion 0, unsafe network 172.16.0.0/16", "routine_cache": w.useCach}
+		"initial": c19Sets[c19InitialSet].Name + ", rulesVersion 0, default_local_cidr_any false, certificate unsafe network 172.16.0.0/16", "routine_cache": w.useCach,
+		"default_local_cidr_any_now": w.dla, "certificate_unsafe_network_now": w.unsafe, "rules_meaning_now": c19Meaning(c19Sets[w.rs], w.env())}
 	for k, v := range extra {
 		d[k] = v
 	}
@@ -365,8 +437,15 @@ func (w *c19World) peerGroups(p firewall.Packet) []string {
 	return c19PeerGroups[0]
 }
 
-// afterEffectiveReload updates the reference for a reload that built a new firewall.
-func (w *c19World) afterEffectiveReload(rulesChanged bool) {
+func (w *c19World) env() c19Env { return c19Env{DefaultLocalAny: w.dla, Unsafe: w.unsafe} }
+
+func (w *c19World) allows(p firewall.Packet, incoming bool) bool {
+	return c19Allows(c19Sets[w.rs], w.env(), p, incoming, w.peerGroups(p))
+}
+
+// afterEffectiveReload updates the reference for a reload that built a new firewall. rulesChanged: the rules (text or
+// meaning) differ from the previous configuration's; textChanged: the rule text differs.
+func (w *c19World) afterEffectiveReload(rulesChanged, textChanged bool) {
 	w.st.effectiveReloads++
 	w.ver++
 	wrap := w.ver == 0
@@ -378,14 +457,17 @@ func (w *c19World) afterEffectiveReload(rulesChanged bool) {
 		if rulesChanged {
 			f.rulesChange = true
 		}
+		if textChanged {
+			f.textChange = true
+		}
 		if wrap && f.set != c19N {
 			f.set |= c19N
 			f.wrapped = true
 		}
-		if f.set&c19O != 0 && !c19Allows(c19Sets[w.rs], t, false, w.peerGroups(t)) {
+		if f.set&c19O != 0 && !w.allows(t, false) {
 			f.set |= c19N
 		}
-		if f.set&c19I != 0 && !c19Allows(c19Sets[w.rs], t, true, w.peerGroups(t)) {
+		if f.set&c19I != 0 && !w.allows(t, true) {
 			f.set |= c19N
 		}
 	}
@@ -431,16 +513,16 @@ func (w *c19World) packet(i int) {
 	// revalidation: possibilities whose original direction the current rules do not allow are forgotten
 	cur := f.set
 	origDenied := false
-	if cur&c19O != 0 && !c19Allows(rs, pk.P, false, groups) {
+	if cur&c19O != 0 && !w.allows(pk.P, false) {
 		cur = cur&^c19O | c19N
 		origDenied = true
 	}
-	if cur&c19I != 0 && !c19Allows(rs, pk.P, true, groups) {
+	if cur&c19I != 0 && !w.allows(pk.P, true) {
 		cur = cur&^c19I | c19N
 		origDenied = true
 	}
-	ruleNow := c19Allows(rs, pk.P, pk.Incoming, groups)
-	if !ruleNow && len(groups) == 0 && c19Allows(rs, pk.P, pk.Incoming, []string{"g1"}) {
+	ruleNow := w.allows(pk.P, pk.Incoming)
+	if !ruleNow && len(groups) == 0 && c19Allows(rs, w.env(), pk.P, pk.Incoming, []string{"g1"}) {
 		st.groupDenied++
 	}
 	dirBit := c19O
@@ -480,7 +562,11 @@ func (w *c19World) packet(i int) {
 	switch {
 	case pass && !predictPass:
 		if before&(c19O|c19I) != 0 && origDenied {
-			w.violation("a tracked flow is honoured although the current rules no longer allow its original direction", detail)
+			sig := "a tracked flow is honoured although the current rules no longer allow its original direction"
+			if f.rulesChange && !f.textChange {
+				sig += " (rule text unchanged: default_local_cidr_any / the certificate's unsafe networks changed what the rules allow)"
+			}
+			w.violation(sig, detail)
 		} else {
 			w.violation("a packet that no rule allows passes although its flow is not tracked", detail)
 		}
@@ -512,11 +598,17 @@ func (w *c19World) packet(i int) {
 					st.mustPassAfterNoChange++
 				}
 			}
+			if !f.rulesChange && f.settingNoEffect {
+				st.mustPassSettingNoEffect++
+			}
 		case pass:
 			st.passRule++
 		case origDenied:
 			st.mustDropOrigDenied++
 			st.dropForgotten++
+			if f.rulesChange && !f.textChange {
+				st.mustDropMeaningOnly++
+			}
 		default:
 			st.dropUntracked++
 		}
@@ -526,7 +618,7 @@ func (w *c19World) packet(i int) {
 		f.wrapped = false
 	}
 	if pass {
-		f.rulesChange, f.reloads = false, 0 // validated (or created) under the current rules
+		f.rulesChange, f.textChange, f.settingNoEffect, f.reloads = false, false, false, 0 // validated (or created) under the current rules
 	}
 }
 
@@ -544,7 +636,7 @@ func (w *c19World) apply(e c19Ev) {
 			w.c.Broken("reload to %s: new firewall installed = %v, configuration changed = %v", c19Sets[e.Arg].Name, w.f.firewall != before, changed)
 		}
 		if changed {
-			w.afterEffectiveReload(true)
+			w.afterEffectiveReload(true, true)
 		} else {
 			w.st.noopReloads++
 		}
@@ -555,16 +647,38 @@ func (w *c19World) apply(e c19Ev) {
 		if w.f.firewall == before {
 			w.c.Broken("touch reload did not build a new firewall")
 		}
-		w.afterEffectiveReload(false)
-	case 'U':
-		w.unsafe = !w.unsafe
+		w.afterEffectiveReload(false, false)
+	case 'D', 'U':
+		// same rule text; what it means may change
+		meant := c19Meaning(c19Sets[w.rs], w.env())
+		if e.Kind == 'D' {
+			w.dla = !w.dla
+			w.st.dlaReloads++
+		} else {
+			w.unsafe = !w.unsafe
+			w.st.unsafeReloads++
+		}
+		hash := w.f.firewall.GetRuleHash()
 		before := w.f.firewall
 		w.reload()
 		if w.f.firewall == before {
-			w.c.Broken("unsafe-network change did not build a new firewall")
+			w.c.Broken("%s did not build a new firewall", w.label(e))
 		}
-		w.st.unsafeReloads++
-		w.afterEffectiveReload(false)
+		if w.f.firewall.GetRuleHash() != hash {
+			w.c.Broken("%s changed the rule hash: the event is meant to leave the rule text alone", w.label(e))
+		}
+		if w.f.firewall.defaultLocalCIDRAny != w.dla || (len(w.f.firewall.unsafeNetworks) > 0) != w.unsafe {
+			w.c.Broken("%s: firewall built with default_local_cidr_any=%v unsafe=%v", w.label(e), w.f.firewall.defaultLocalCIDRAny, w.f.firewall.unsafeNetworks)
+		}
+		changed := c19Meaning(c19Sets[w.rs], w.env()) != meant
+		if changed {
+			w.st.meaningOnlyReloads++
+		} else {
+			for _, f := range w.flows {
+				f.settingNoEffect = true
+			}
+		}
+		w.afterEffectiveReload(changed, false)
 	case 'J':
 		// far-away start state: as if (Arg - current) further reloads that changed nothing about the rules had happened with
 		// no traffic in between — the private counter is set directly (DESIGN §2.3)
@@ -587,6 +701,8 @@ func (w *c19World) label(e c19Ev) string {
 		return "reload(" + c19Sets[e.Arg].Name + ")"
 	case 'T':
 		return "reload(same rules, conntrack.default_timeout changed)"
+	case 'D':
+		return "reload(same rules, default_local_cidr_any toggled)"
 	case 'U':
 		return "reload(certificate unsafe network toggled)"
 	case 'J':
@@ -605,7 +721,7 @@ func (w *c19World) menu(sets []int) []c19Ev {
 	for _, s := range sets {
 		out = append(out, c19Ev{'L', s})
 	}
-	out = append(out, c19Ev{'T', 0}, c19Ev{'U', 0})
+	out = append(out, c19Ev{'T', 0}, c19Ev{'D', 0}, c19Ev{'U', 0})
 	if !w.jumped {
 		out = append(out, c19Ev{'J', 65534}, c19Ev{'J', 65535})
 	}
@@ -622,7 +738,7 @@ func (w *c19World) key() string {
 	for _, p := range w.alpha {
 		names[p.P] = p.Flow
 	}
-	fmt.Fprintf(&sb, "rs=%d t=%v u=%v j=%v v=%d h=%s un=%v|", w.rs, w.touch, w.unsafe, w.jumped, fw.rulesVersion, fw.GetRuleHash()[:8], fw.unsafeNetworks)
+	fmt.Fprintf(&sb, "rs=%d t=%v u=%v d=%v/%v j=%v v=%d h=%s un=%v|", w.rs, w.touch, w.unsafe, w.dla, fw.defaultLocalCIDRAny, w.jumped, fw.rulesVersion, fw.GetRuleHash()[:8], fw.unsafeNetworks)
 	var cs []string
 	for p, c := range fw.Conntrack.Conns {
 		cs = append(cs, fmt.Sprintf("%s:%v:%d", names[p], c.incoming, c.rulesVersion))
@@ -644,7 +760,7 @@ func (w *c19World) key() string {
 		if f.set == c19N && !f.rulesChange {
 			continue
 		}
-		rs = append(rs, fmt.Sprintf("%s=%s/%v/%v/%v", names[p], c19SetString(f.set), f.rulesChange, f.wrapped, f.reloads > 0))
+		rs = append(rs, fmt.Sprintf("%s=%s/%v/%v/%v/%v/%v", names[p], c19SetString(f.set), f.rulesChange, f.textChange, f.settingNoEffect, f.wrapped, f.reloads > 0))
 	}
 	sort.Strings(rs)
 	sb.WriteString("|ref=" + strings.Join(rs, ","))
@@ -656,7 +772,8 @@ func TestVerifC19(t *testing.T) {
 	defer c.End()
 
 	c.Assume("observation point is Firewall.Drop of the node's current firewall (f.firewall) after each reload; reloads go through config.C.ReloadConfigString and the registered callbacks of a goroutine-free real node; peers are hand-built HostInfos with real certificates of the node's CA (no handshake in the loop)")
-	c.Assume("rule sets: R0 allow out tcp/80, R1 allow in tcp/80, R2 both, R3 none, (thorough) R4 allow out tcp/80 for group g1; all host any / local_cidr any; initial state R2, rulesVersion 0, empty table")
+	c.Assume("rule sets: R0 allow out tcp/80, R1 allow in tcp/80, R2 both, R3 none, (thorough) R4 allow out tcp/80 for group g1 - these with host any / local_cidr any; R5 = R2 with local_cidr omitted, (thorough) R6 out tcp/80 local_cidr omitted + in tcp/80 local_cidr 172.16.0.0/16; initial state R5, default_local_cidr_any false, certificate with unsafe network 172.16.0.0/16, rulesVersion 0, empty table")
+	c.Assume("what a rule set allows is a function of the rule text, firewall.default_local_cidr_any and the certificate's unsafe networks (omitted local_cidr = any local address if default_local_cidr_any is set or the certificate has no unsafe networks, else the node's own overlay networks; examples/config.yml). A reload that changes only the setting or the certificate is 'a reload that changes nothing about the rules' exactly when no rule's meaning changes; otherwise tracked flows must be revalidated against the new meaning")
 	c.Assume("a flow is forgotten at the latest when one of its packets is evaluated while the current rules deny its original direction (the statement's 'otherwise the flow is forgotten'); it must then not come back without a new allowed packet")
 	c.Assume("lazy and eager forgetting are both accepted: a flow whose original direction some intermediate rule set denied may or may not survive until rules allow it again (weak reading of 'otherwise the flow is forgotten')")
 	c.Assume("a rulesVersion wrap (65535 -> 0) may forget any flow, even one the rules still allow and even when the reload changed nothing about the rules (DESIGN ◊: forgetting more than necessary on wrap is tolerated; counted in wrap_forgot_still_allowed_flows); honouring a flow the rules no longer allow is never tolerated")
@@ -666,9 +783,9 @@ func TestVerifC19(t *testing.T) {
 
 	st := &c19Stat{versions: map[uint16]bool{}}
 	c19Mint()
-	sets := []int{0, 1, 2, 3}
+	sets := []int{0, 1, 2, 3, 5}
 	if c.Thorough() {
-		sets = append(sets, 4)
+		sets = append(sets, 4, 6)
 	}
 	alpha := c19Alphabet(c.Thorough())
 	type boxT struct {
@@ -676,18 +793,26 @@ func TestVerifC19(t *testing.T) {
 		fullNode bool
 		cache    bool
 		depth    int
+		share    float64 // cumulative share of the soft budget after which this box stops (a box that closes early leaves its time to the next)
 	}
+	// cheap-and-deep first: the minimal assembly runs in parallel and reaches every situation of the vacuity guards; the full
+	// node (one worker, ~3 ms per history) then repeats the shallow part with every reload callback of Main() registered
 	boxes := []boxT{
-		{"full node", true, false, mc.Pick(c, 3, 4)},
-		{"minimal assembly", false, false, mc.Pick(c, 5, 7)},
+		{"minimal assembly", false, false, mc.Pick(c, 5, 7), mc.Pick(c, 0.6, 0.55)},
+		{"full node", true, false, mc.Pick(c, 3, 4), mc.Pick(c, 1.0, 0.8)},
 	}
 	if c.Thorough() {
-		boxes = append(boxes, boxT{"minimal assembly + routine cache", false, true, 6})
+		boxes = append(boxes, boxT{"minimal assembly + routine cache", false, true, 6, 1.0})
+	}
+	budget := mc.Pick(c, 45.0, 900.0)
+	if f, err := strconv.ParseFloat(os.Getenv("VERIF_BUDGET_S"), 64); err == nil && f > 0 {
+		budget = f // bin/vcheck always exports it
 	}
 	perBox := map[string]any{}
 	complete := true
 	for _, b := range boxes {
 		b := b
+		var timedOut atomic.Bool
 		res := mc.BFSReplay(c, mc.BFSConfig[c19Ev]{
 			MaxDepth: b.depth,
 			Workers:  map[bool]int{true: 1, false: 0}[b.fullNode], // node assembly pins process-global randomness and the virtual clock
@@ -695,7 +820,13 @@ func TestVerifC19(t *testing.T) {
 				w := &c19World{alpha: alpha}
 				return w.label(e)
 			},
-			Stop: c.OutOfTime,
+			Stop: func() bool {
+				if c.OutOfTime() || c.Elapsed() > b.share*budget {
+					timedOut.Store(true)
+					return true
+				}
+				return false
+			},
 			Run: func(hist []c19Ev) (string, []c19Ev) {
 				w := c19NewWorld(c, t, alpha, b.fullNode, b.cache, st)
 				defer w.close()
@@ -707,6 +838,9 @@ func TestVerifC19(t *testing.T) {
 		})
 		fmt.Printf("INFO C19 %s: states=%d transitions=%d depth=%d closed=%v t=%.1fs\n", b.name, res.States, res.Transitions, res.MaxDepth, res.Exhaustive, c.Elapsed())
 		perBox[b.name] = map[string]any{"states": res.States, "transitions": res.Transitions, "max_depth": res.MaxDepth, "closed": res.Exhaustive}
+		if timedOut.Load() {
+			complete = false
+		}
 		if c.OutOfTime() {
 			complete = false
 			break
@@ -717,6 +851,10 @@ func TestVerifC19(t *testing.T) {
 		vs = append(vs, int(v))
 	}
 	sort.Ints(vs)
+	var ru syscall.Rusage
+	if syscall.Getrusage(syscall.RUSAGE_SELF, &ru) == nil { // the box is shared: CPU seconds, not wall time, size the tiers
+		c.Set("cpu_seconds", float64(ru.Utime.Sec+ru.Stime.Sec)+float64(ru.Utime.Usec+ru.Stime.Usec)/1e6)
+	}
 	c.Set("per_box", perBox)
 	c.Set("rule_sets", len(sets))
 	c.Set("packet_alphabet", len(alpha))
@@ -729,6 +867,8 @@ func TestVerifC19(t *testing.T) {
 		"wraps": st.wrapSeen, "wrap_forgot_still_allowed_flows": st.wrapForgotAllowed, "noop_reloads": st.noopReloads,
 		"effective_reloads": st.effectiveReloads, "unsafe_network_reloads": st.unsafeReloads, "unroutable_local_address_probes": st.unroutable,
 		"stale_cache_verdicts_not_judged": st.staleCacheHits, "group_rule_denied_other_peer": st.groupDenied,
+		"default_local_cidr_any_reloads": st.dlaReloads, "same_text_reloads_that_change_what_rules_allow": st.meaningOnlyReloads,
+		"must_drop_after_same_text_meaning_change": st.mustDropMeaningOnly, "must_pass_after_setting_or_certificate_reload_without_effect": st.mustPassSettingNoEffect,
 	})
 	kinds := 0
 	for _, n := range []int64{st.passRule, st.passFlow, st.dropUntracked, st.dropForgotten, st.either, st.wrapForgotAllowed} {
@@ -743,7 +883,9 @@ func TestVerifC19(t *testing.T) {
 		c.Require(st.mustPassAfterNoChange > 0, "no established flow judged after a reload that changed nothing about the rules")
 		c.Require(st.mustPassAfterChange > 0, "no established flow judged after a rule change that still allows it")
 		c.Require(st.mustDropOrigDenied > 0, "no flow judged whose original direction the new rules deny")
-		c.Require(st.noopReloads > 0 && st.unsafeReloads > 0, "reload kinds missing: identical=%d unsafe=%d", st.noopReloads, st.unsafeReloads)
+		c.Require(st.noopReloads > 0 && st.unsafeReloads > 0 && st.dlaReloads > 0, "reload kinds missing: identical=%d unsafe=%d default_local_cidr_any=%d", st.noopReloads, st.unsafeReloads, st.dlaReloads)
+		c.Require(st.meaningOnlyReloads > 0 && st.mustDropMeaningOnly > 0, "no flow judged whose original direction is denied after a reload with identical rule text (reloads=%d judged=%d)", st.meaningOnlyReloads, st.mustDropMeaningOnly)
+		c.Require(st.mustPassSettingNoEffect > 0, "no established flow judged after a default_local_cidr_any / certificate reload that leaves the rules' meaning alone")
 		c.Require(st.wrapSeen > 0 && st.wrapForgotAllowed > 0, "version wrap not exercised: wraps=%d forgot=%d", st.wrapSeen, st.wrapForgotAllowed)
 		c.Require(st.versions[0] && st.versions[65534] && st.versions[65535] && st.versions[1], "rulesVersion values reached: %v", vs)
 		c.Require(st.unroutable > 0, "unsafe-network flow never probed while the network was withdrawn")
